@@ -47,7 +47,8 @@ Proof.
     inv_bind_as H u1 t1 E1 K1. apply ret_ok in K1 as [<- _]. simpl. rewrite !app_nil_r. auto.
   - cbn [eval_item] in H. inv_bind_as H inner t1 Einner K1. inv_bind_as K1 cl t2 Eclose K2.
     destruct cl; apply ret_ok in K2 as [<- _]; simpl; rewrite !app_nil_r; auto.
-  - cbn [eval_item] in H. inv_bind_as H k t1 Ek K1. inv_bind_as K1 fr1 t2 Ebody K2. inv_bind_as K2 u3 t3 E3 K3.
+  - cbn [eval_item] in H. inv_bind_as H k t1 Ek K1. inv_bind_as K1 fr1 t2 Ebody K2. inv_bind_as K2 uc tc Ec Kc.
+    apply chk_ok in Ec as [-> _]. inv_bind_as Kc u3 t3 E3 K3.
     apply ret_ok in K3 as [<- _]. apply (body_annots t genes (Some k) body fr t1 fr1 t2 IH Ebody).
   - cbn [eval_item] in H. apply ret_ok in H as [<- _]. simpl. rewrite app_nil_r. auto.
   - cbn [eval_item] in H. apply ret_ok in H as [<- _]. simpl. rewrite app_nil_r. auto.
@@ -212,7 +213,8 @@ Proof.
       apply Forall_app; (split; [exact Hok|]).
     + destruct pg; [apply kids_ok_reflag|]; exact Eclose.
     + constructor; [exact Eclose|constructor].
-  - cbn [eval_item] in H. inv_bind_as H k t1 Ek K1. inv_bind_as K1 fr1 t2 Ebody K2. inv_bind_as K2 u3 t3 E3 K3.
+  - cbn [eval_item] in H. inv_bind_as H k t1 Ek K1. inv_bind_as K1 fr1 t2 Ebody K2. inv_bind_as K2 uc tc Ec Kc.
+    apply chk_ok in Ec as [-> _]. inv_bind_as Kc u3 t3 E3 K3.
     apply ret_ok in K3 as [<- _]. eapply (body_keeps_ok t genes (Some k) body); eauto.
   - cbn [eval_item] in H. apply ret_ok in H as [<- _]. exact Hok.
   - cbn [eval_item] in H. apply ret_ok in H as [<- _]. exact Hok.
